@@ -466,6 +466,70 @@ fn run(scn: &str) -> i32 {
                         return 3;
                     }
                 }
+                "rwpage" => {
+                    // the function lives in a code arena that is writable as well as executable (a JIT region)
+                    let f = funcs[w[1]];
+                    let p0 = f & !(PAGE - 1);
+                    let p1 = (f + 15) & !(PAGE - 1);
+                    let rc = libc::mprotect(p0 as *mut libc::c_void, p1 - p0 + PAGE, libc::PROT_READ | libc::PROT_WRITE | libc::PROT_EXEC);
+                    println!("step {ln}: page(s) of {} made rwx before any installation: rc={rc}", w[1]);
+                    if rc != 0 {
+                        return 9;
+                    }
+                }
+                "permw" => {
+                    // the page of the function's first byte is (still) writable
+                    let f = funcs[w[1]];
+                    let perms = std::fs::read_to_string("/proc/self/maps")
+                        .ok()
+                        .and_then(|s| {
+                            s.lines().find_map(|l| {
+                                let mut it = l.split_whitespace();
+                                let mut ab = it.next()?.split('-');
+                                let a = usize::from_str_radix(ab.next()?, 16).ok()?;
+                                let b = usize::from_str_radix(ab.next()?, 16).ok()?;
+                                if a <= f && f < b { Some(it.next()?.to_string()) } else { None }
+                            })
+                        })
+                        .unwrap_or_default();
+                    println!("step {ln}: page of {} has permissions {perms}", w[1]);
+                    if !perms.contains('w') {
+                        println!("MISMATCH at step {ln}: the page of {} was writable before the installation and is {perms} now (stores by its other occupants fault)", w[1]);
+                        return 3;
+                    }
+                }
+                "prevent" => {
+                    // a fresh thread takes a Preventer and lets it go again, under a deadline: after any
+                    // earlier lifetime (however it ended) the process-wide guard must be obtainable
+                    let (tx, rx) = std::sync::mpsc::channel();
+                    std::thread::spawn(move || {
+                        let p = InjectorPP::prevent();
+                        drop(p);
+                        let _ = tx.send(());
+                    });
+                    match rx.recv_timeout(std::time::Duration::from_secs(8)) {
+                        Ok(()) => println!("step {ln}: a fresh thread obtained and released a preventer"),
+                        Err(_) => {
+                            println!("MISMATCH at step {ln}: InjectorPP::prevent() did not return within 8 s (the process-wide guard is unusable)");
+                            return 3;
+                        }
+                    }
+                }
+                "new_deadline" => {
+                    let (tx, rx) = std::sync::mpsc::channel();
+                    std::thread::spawn(move || {
+                        let i = InjectorPP::new();
+                        drop(i);
+                        let _ = tx.send(());
+                    });
+                    match rx.recv_timeout(std::time::Duration::from_secs(8)) {
+                        Ok(()) => println!("step {ln}: a fresh thread created and dropped an injector"),
+                        Err(_) => {
+                            println!("MISMATCH at step {ln}: InjectorPP::new() did not return within 8 s (the process-wide guard is unusable)");
+                            return 3;
+                        }
+                    }
+                }
                 "thread_panic" => {
                     let t = funcs[w[1]];
                     let f = funcs[w[2]];
